@@ -4,7 +4,7 @@
     input's size. *)
 From Coq Require Import ZArith List Arith.
 From A816 Require Import Model.Assemble Spec.EnvSem Proofs.ScannerProofs Proofs.ParserProofs Proofs.ParserFuelProofs
-     Proofs.ResolverProofs Proofs.IpsProofs Spec.TableSpec Proofs.TableEncode Proofs.TableDecode.
+     Proofs.ResolverProofs Proofs.IpsProofs Spec.TableSpec Proofs.TableEncode Proofs.TableDecode Proofs.TerminationProofs.
 Open Scope nat_scope.
 
 (** Scanning: |input| + 2 driver iterations suffice, for any text (unterminated strings and
@@ -38,3 +38,17 @@ Proof. exact to_bytes_total. Qed.
 Theorem C15_to_text : forall t bs, to_text t bs <> OutOfFuel.
 Proof. exact to_text_total. Qed.
 
+
+(** The whole pipeline: from any source text, with any files and options, the model never runs
+    out of fuel — scanning, parsing (includes too), code generation, both label passes, emission:
+    it ends with an output or a reported error.  Macro recursion and nesting are bounded by the
+    depth fuel, whose exhaustion is the reported RecursionError (an error value, not OutOfFuel);
+    [.for] iterates Z.to_nat (b - a) times; every other traversal is structural. *)
+Theorem C15_assemble : forall t fs c fname src, assemble_source t fs c fname src <> AFuel.
+Proof. exact assemble_source_terminates. Qed.
+Theorem C15_codegen : forall w, world_nf w -> forall fuel s b, sinv (cg_r s) ->
+  code_gen_fuel w fuel s b <> OutOfFuel /\
+  forall s' ns, code_gen_fuel w fuel s b = Ok (s', ns) -> sinv (cg_r s') /\ Forall node_nf ns.
+Proof. exact code_gen_total. Qed.
+Theorem C15_passes : forall w r ns, world_nf w -> sinv r -> Forall node_nf ns -> assemble_nodes w r ns <> OutOfFuel.
+Proof. exact assemble_nodes_total. Qed.
